@@ -343,3 +343,102 @@ def rule_own_so(ctx: Ctx) -> None:
                             or (f.name == '__init__' and isinstance(n, (ast.Assign, ast.AnnAssign)) and norm(n.value) == 'None')
                         ctx.check(ok, 'OWN-SO', f, f'{f.short} writes {t.attr}', norm(n)[:100],
                                   f'{f.short} writes second-order slot {t.attr} ({norm(n)[:80]}); only compute_*_inv / broadcast_*_inv may refresh second-order data', n)
+
+
+# --------------------------------------------------------------------------- C07: KL clipping
+
+def rule_aff_clip(ctx: Ctx) -> None:
+    import ast as _ast
+    p = ctx.prog
+    ctx.rule('AFF-CLIP', '_compute_grad_scale returns min(1, sqrt(kl_clip / |S|)), S = sum over layers of <V, D> * lr^2 (weight and bias parts), S == 0 -> 1', floor=5)
+    f = p.get_func(f'{BP}._compute_grad_scale')
+    nz0 = Normalizer({})
+    loops = [n for n in f.body if isinstance(n, _ast.For)]
+    if len(loops) != 1:
+        raise AnalysisIncomplete('_compute_grad_scale: expected one loop over the layers')
+    lp = loops[0]
+    okl = '_layers.values()' in norm(lp.iter) and isinstance(lp.target, _ast.Tuple)
+    ctx.check(okl, 'AFF-CLIP', f, 'sums over every registered layer', 'layer loop', f'_compute_grad_scale iterates {norm(lp.iter)}; every registered layer must contribute', lp)
+    lv = norm(lp.target.elts[1]) if okl else 'layer'
+    # accumulator
+    accs = [n for n in _ast.walk(lp) if isinstance(n, _ast.AugAssign) and isinstance(n.op, _ast.Add) and isinstance(n.target, _ast.Name)]
+    acc = accs[0].target.id if accs else None
+    init = [n for n in f.body if isinstance(n, _ast.Assign) and norm(n.targets[0]) == acc]
+    ctx.check(bool(acc) and len(init) == 1 and norm(init[0].value) in ('0.0', '0') and init[0].lineno < lp.lineno, 'AFF-CLIP', f, f'accumulator {acc} starts at 0 outside the loop', 'accumulator',
+              f'the clip sum accumulator is initialised as {[norm(i) for i in init]}; it must start at 0 once, before the layer loop', init[0] if init else f.node)
+    env = {}
+    for n in _ast.walk(lp):
+        if isinstance(n, _ast.Assign) and len(n.targets) == 1 and isinstance(n.targets[0], _ast.Name):
+            env.setdefault(n.targets[0].id, []).append(n)
+    rebinds = [n for n in _ast.walk(lp) if isinstance(n, _ast.Assign) and any(isinstance(t, _ast.Name) and t.id == acc for t in n.targets)]
+    ctx.check(not rebinds, 'AFF-CLIP', f, 'the accumulator is only incremented inside the loop', 'accumulator rebind',
+              f'the clip sum is re-assigned inside the layer loop ({[norm(r) for r in rebinds]}): earlier layers are dropped from the sum', rebinds[0] if rebinds else lp)
+    # terms, by bias valuation
+    def term_forms(bias: bool) -> list[str]:
+        forms = []
+        e1 = {}
+        for k, ns in env.items():
+            for n in ns:
+                atoms = [(norm(a), pol) for g in flow.enclosing_guards(p, f, n) for a, pol in conjuncts(g.test, g.polarity)]
+                hb = [(a, pol) for a, pol in atoms if a == f'{lv}.module.has_bias()']
+                if all(pol == bias for a, pol in hb):
+                    e1[k] = n.value
+        nz = Normalizer(e1)
+        for a in accs:
+            atoms = [(norm(x), pol) for g in flow.enclosing_guards(p, f, a) for x, pol in conjuncts(g.test, g.polarity)]
+            hb = [(x, pol) for x, pol in atoms if x == f'{lv}.module.has_bias()']
+            other = [(x, pol) for x, pol in atoms if x != f'{lv}.module.has_bias()']
+            if other:
+                forms.append(f'GUARDED({other})')
+                continue
+            if all(pol == bias for x, pol in hb):
+                forms.append(nz.poly(a.value).canon())
+        return sorted(forms)
+    def want_forms(bias: bool) -> list[str]:
+        nzw = Normalizer({})
+        w = f'{lv}.module.get_weight_grad()'
+        b = f'{lv}.module.get_bias_grad()'
+        if bias:
+            t1 = f'({lv}.grad[:, :-1].view({w}.size()) * {w} * self.lr ** 2).sum().item()'
+            t2 = f'({lv}.grad[:, -1:].view({b}.size()) * {b} * self.lr ** 2).sum().item()'
+            return sorted([nzw.poly(_ast.parse(t1, mode='eval').body).canon(), nzw.poly(_ast.parse(t2, mode='eval').body).canon()])
+        t1 = f'({lv}.grad.view({w}.size()) * {w} * self.lr ** 2).sum().item()'
+        return [nzw.poly(_ast.parse(t1, mode='eval').body).canon()]
+    for bias in (True, False):
+        got, want = term_forms(bias), want_forms(bias)
+        ctx.check(got == want, 'AFF-CLIP', f, f'per-layer terms ({"bias" if bias else "no bias"}): {len(got)} inner product(s) * lr^2', f'terms bias={bias}',
+                  f'_compute_grad_scale adds, for a layer {"with" if bias else "without"} bias, the terms {got}; specified {want} (<preconditioned, original> * lr^2 for the weight'
+                  + (' and the bias, split off as the last column)' if bias else ')'), lp)
+    # result
+    rets = [n for n in p.nodes(f) if isinstance(n, _ast.Return) and n.value is not None]
+    zero = [r for r in rets if any((norm(a).replace(' ', ''), pol) in ((f'{acc}==0.0', True), (f'{acc}==0', True)) for g in flow.enclosing_guards(p, f, r) for a, pol in conjuncts(g.test, g.polarity))]
+    ctx.check(len(zero) == 1 and norm(zero[0].value) in ('1.0', '1'), 'AFF-CLIP', f, 'zero inner product -> 1.0', 'zero case',
+              f'_compute_grad_scale returns {[norm(r.value) for r in zero]} for a zero inner product; specified 1.0', zero[0] if zero else f.node)
+    main = [r for r in rets if r not in zero]
+    want = nz0.poly(_ast.parse(f'min(1.0, math.sqrt(self.kl_clip / abs({acc})))', mode='eval').body).canon()
+    got = nz0.poly(main[-1].value).canon() if main else None
+    ctx.check(got == want and len(main) == 1, 'AFF-CLIP', f, 'returns min(1, sqrt(kl_clip / |S|))', 'scale formula',
+              f'_compute_grad_scale returns {got}; specified {want}', main[-1] if main else f.node)
+
+
+def rule_null_kl(ctx: Ctx) -> None:
+    import ast as _ast
+    p = ctx.prog
+    ctx.rule('NULL-KL', 'kl_clip=None (documented: no clipping) is accepted by the constructor and leads to scale None, i.e. no scaling', floor=3)
+    init = p.get_func(f'{BP}.__init__')
+    cmps = [n for n in p.nodes(init) if isinstance(n, _ast.Compare) and any(isinstance(x, _ast.Name) and x.id == 'kl_clip' for x in _ast.walk(n))
+            and any(isinstance(o, (_ast.Lt, _ast.LtE, _ast.Gt, _ast.GtE)) for o in n.ops)]
+    for c in cmps:
+        atoms = [(norm(a), pol) for g in flow.guards(p, init, c) for a, pol in conjuncts(g.test, g.polarity)]
+        ok = ('kl_clip is None', False) in atoms or ('kl_clip is not None', True) in atoms
+        ctx.check(ok, 'NULL-KL', init, f'ordering test {norm(c)} is guarded by kl_clip is not None', norm(c),
+                  f'the constructor evaluates {norm(c)} although kl_clip may be None (documented as "no clipping"): TypeError for kl_clip=None', c)
+    st = p.get_func(f'{BP}.step')
+    sc = [n for n in p.nodes(st) if isinstance(n, _ast.Assign) and norm(n.targets[0]) == 'scale']
+    ok = len(sc) == 1 and norm(sc[0].value).replace(' ', '') in ('Noneifself.kl_clipisNoneelseself._compute_grad_scale()', 'self._compute_grad_scale()ifself.kl_clipisnotNoneelseNone')
+    ctx.check(ok, 'NULL-KL', st, 'scale = None if kl_clip is None else _compute_grad_scale()', 'scale',
+              f'step() computes the scale as {[norm(x.value) for x in sc]}; specified: None (no scaling) exactly when kl_clip is None', sc[0] if sc else st.node)
+    ug = p.get_func('layers.base.KFACBaseLayer.update_grad')
+    muls = [n for n in p.nodes(ug) if isinstance(n, _ast.Assign) and 'scale' in norm(n.value) and '*' in norm(n.value)]
+    okm = len(muls) == 1 and [(norm(a), pol) for g in flow.enclosing_guards(p, ug, muls[0]) for a, pol in conjuncts(g.test, g.polarity)] in ([('scale is None', False)], [('scale is not None', True)])
+    ctx.check(okm, 'NULL-KL', ug, 'update_grad scales exactly when a scale is given', 'update_grad scale', 'update_grad does not multiply by the scale exactly when scale is not None', ug.node)
